@@ -255,6 +255,42 @@ def alg_online_query(items, cmd="denseon"):
     return res
 
 
+def prog_online_query(items):
+    """items: (list of inlined assertions, sig, cuts) -> what the dense-time online INTERPRETER as translated from the source
+    (operator dictionary keyed by name, memo, several assertions, constants_sent: GeneratedGlueDn.lean under GlueDn.lean, proved equal
+    to the mirror ProgramOn.lean) returns for every update: ("ok", [[(Fraction | inf, float)], ...]) | ("err", kind) | ("undef",)."""
+    lines = []
+    for specs, sig, cuts in items:
+        nup, chunks = online_chunks(sig, cuts)
+        fields = []
+        for i in range(nup):
+            parts = ["%s:%s" % (v, ",".join("%d/%d@%d" % (t.numerator, t.denominator, f2b(x)) for (t, x) in chunks[v][i]))
+                     for v in sorted(sig) if chunks[v][i]]
+            fields.append(" & ".join(parts) if parts else "-")
+        lines.append("denseprogen | %d/%d | %s | %s" % (SCALE.numerator, SCALE.denominator, " ## ".join(F.to_proto(f) for f in specs),
+                                                        " | ".join(fields)))
+    res = []
+    for o, ln in zip(common.driver_run(lines), lines):
+        if o.startswith("undef"):
+            res.append(("undef",))
+        elif o.startswith("err "):
+            res.append(("err", o[4:].strip()))
+        elif o.startswith("ok"):
+            outs = []
+            for part in o[2:].split(";"):
+                part = part.strip()
+                row = []
+                if part and part != "-":
+                    for it in part.split():
+                        t, v = it.split("@")
+                        row.append((float("inf") if t == "inf" else Fraction(t), common.b2f(v)))
+                outs.append(row)
+            res.append(("ok", outs))
+        else:
+            raise common.HarnessError("dense online interpreter (translated): " + o + " on: " + ln)
+    return res
+
+
 def flush_online_mirror(ctx):
     """Compare the runs recorded in ctx.pending_mirror (formula, signals, cuts, text, outcome of the real monitor) with the
     mirror of the online operation classes: every list every update() returned, sample by sample."""
